@@ -252,6 +252,7 @@ macro_rules! define_bigint { ($typename:ident, $bitlen:expr) => {
 
 macro_rules! define_lagrange { ($name:ident, $n0:ident, $n1:ident, $n2:ident, $n3:ident) => {
 
+    #[cfg_attr(pornin_crrl_verif_cut, inline(never))]
     #[allow(dead_code)]
     pub fn $name(k: &[u64; $n1::N], n: &[u64; $n1::N], max_bitlen: u32)
         -> ([u64; $n0::N], [u64; $n0::N])
@@ -516,6 +517,7 @@ pub fn lagrange_vartime(k: &[u64], n: &[u64], max_bitlen: u32,
 
 macro_rules! define_lagrange_spec { ($name:ident, $n0:ident, $n1:ident, $n3:ident) => {
 
+    #[cfg_attr(pornin_crrl_verif_cut, inline(never))]
     #[allow(dead_code)]
     pub fn $name(
         a0: &[u64; $n1::N], a1: &[u64; $n1::N],
@@ -650,6 +652,7 @@ define_lagrange_spec!(lagrange192_spec_vartime, ZInt128, ZInt192, ZInt384);
 // (not truncated).
 //
 // Values a and b are provided as two 64-bit words each (little-endian order).
+#[cfg_attr(pornin_crrl_verif_cut, inline(never))]
 #[allow(dead_code)]
 pub fn lagrange128_basisconv_vartime(a: &[u64; 2], b: &[u64; 2])
     -> (i64, i64, i64, i64, u32)
